@@ -258,6 +258,11 @@ def check(run: Run) -> None:
                         "nodes not yet visited into next_scheduled_time: after the owner captured the error, an independent self-scheduling node ranked after "
                         "the failing node never wakes again: " + fl.path_text(w), loc=fl.cfg.describe(w[0][0]))
 
+    with run.obligation("C15.k", "K9", "the error series of a node is a separate output of that node: the interning key of a consumer says WHICH output of the producer it reads "
+                        "(value or error), so a consumer of the error series is never merged with an identical consumer of the value series (shared with C06.a)"):
+        from . import c06
+        R.share(run, "C15.k", c06, ["C06.a"])
+
 
 VARIANTS = [
     {"id": "h-revert-fix-failed-cycle-resumed", "expect": "C15.h", "edits": [{"file": "src/hgraph/runtime/graph.cpp", "find": "      !state.evaluation_failed && state.evaluation_cursor != 0 &&\n      state.evaluation_cursor != invalid_cursor;", "replace": "      state.evaluation_cursor != 0 && state.evaluation_cursor != invalid_cursor;"}]},
